@@ -11,7 +11,7 @@ FT = [("f32", 4, 8, 23), ("f64", 8, 11, 52)]
 UN = ["neg", "abs", "sqrt", "not", "bitofsign", "sign", "signnz", "op-u", "op~", "op++", "op--", "op++post", "op--post", "op++old", "op--old", "op+u"]
 PRED = ["isnan", "isinf", "isfinite", "is_flint", "is_even", "is_odd"]
 BIN = ["add", "sub", "mul", "div", "min", "max", "fmin", "fmax", "copysign", "nextafter", "op+", "op-", "op*", "op/"]
-BITS = ["and", "or", "xor", "andnot", "op&", "op|", "op^", "op&=", "op|=", "op^=", "op+=", "op-=", "op*=", "op/="]
+BITS = ["and", "or", "xor", "andnot", "op&", "op|", "op^", "op&=", "op|=", "op^=", "op+=", "op-=", "op*=", "op/=", "land", "lor"]
 TER = ["fma", "fms", "fnma", "fnms"]
 
 
